@@ -3,7 +3,7 @@ import ast, z3
 from . import types as T
 from . import extract as X
 from . import registry as R
-from .state import SV, State, VCError, Display, DisplayDict, PyFunc, fresh, fresh_sort
+from .state import SV, State, VCError, Display, DisplayDict, PyFunc, fresh, fresh_sort, fresh_mark, new_consts
 from .expr import I, S, is_pystr
 
 BUILTIN_EXC = {"ValueError", "TypeError", "RuntimeError", "NotImplementedError", "KeyError", "IndexError",
@@ -78,6 +78,48 @@ class EvalMixin:
         for st1, ks in self.ev_list(list(node.keys), st):
             for st2, vs in self.ev_list(list(node.values), st1):
                 yield st2, SV(DisplayDict, list(zip(ks, vs)))
+    def ev_ListComp(self, node, st):
+        """[f(x) for x in lst]  (one generator, no condition, pure element expression)"""
+        if len(node.generators) != 1 or node.generators[0].ifs or not isinstance(node.generators[0].target, ast.Name):
+            raise VCError("list comprehension form (line %d)" % node.lineno)
+        g = node.generators[0]
+        for st1, seq in self.ev(g.iter, st):
+            seq = self.unwrap_opt(st1, seq, node, "iteration-over-None")
+            if not isinstance(seq.ty, T.List): raise VCError("list comprehension over %s" % seq.ty)
+            i = fresh("lc_i", T.Int)
+            mark = fresh_mark()
+            s2 = st1.fork(); s2.env = dict(st1.env)
+            elem = SV(seq.ty.t, z3.Select(T.list_arr(seq.ty, seq.t), i))
+            s2.env[g.target.id] = elem
+            base = len(s2.pc)
+            self.assume_wf(s2, elem)
+            wf = s2.pc[base:]
+            base = len(s2.pc)
+            s2.exc_sink = []
+            outs = list(self.ev(node.elt, s2))
+            if not outs: raise VCError("list comprehension element has no normal outcome")
+            r = outs[-1][1]
+            for so, vo in reversed(outs[:-1]):
+                if vo.ty != r.ty: raise VCError("list comprehension of mixed types")
+                r = SV(r.ty, z3.If(z3.And(so.pc[base:] + [z3.BoolVal(True)]), vo.t, r.t))
+            if s2.exc_sink and not self.spec:
+                # the element expression may raise for some element: obligation that it does not
+                for es, exn in s2.exc_sink:
+                    n = T.list_len(seq.ty, seq.t)
+                    self.oblige(st1, z3.ForAll([i], z3.Implies(z3.And(i >= 0, i < n), z3.Not(z3.And(wf + es.pc[base:] + [z3.BoolVal(True)])))),
+                                "list-comprehension-element-raises-%s" % exn, node)
+            rty = T.List(r.ty)
+            res = fresh("lc", rty); n = T.list_len(seq.ty, seq.t)
+            st1.assume(T.list_len(rty, res) == n)
+            # values created while evaluating the element expression (results of modular calls, ...) depend on the element:
+            # they become functions of the index
+            facts = wf + outs[-1][0].pc[base:] if len(outs) == 1 else wf
+            body = z3.And(facts + [T.list_arr(rty, res)[i] == r.t])
+            subst = [(c, z3.Function("lcf_" + c.decl().name(), z3.IntSort(), c.sort())(i)) for c in new_consts([body], mark) if not c.eq(res)]
+            if subst: body = z3.substitute(body, *subst)
+            st1.assume(z3.ForAll([i], z3.Implies(z3.And(i >= 0, i < n), body), patterns=[T.list_arr(rty, res)[i]]))
+            yield st1, SV(rty, res)
+
     def ev_Lambda(self, node, st):
         yield st, SV(PyFunc, ("lambda", node))
     def ev_JoinedStr(self, node, st):
